@@ -946,6 +946,11 @@ fn reg_grown(c: &mut Case) {
     }
 }
 
+/// parameter builders keep every configured value whatever the order of the `with_*` steps
+fn builders_fam(c: &mut Case) {
+    scverif::builders::case(c, "C06")
+}
+
 fn main() {
     runner::main(Spec {
         property: "C06",
@@ -958,6 +963,7 @@ fn main() {
             "member trees are re-hydrated through serde_json::Value (no decimal text round trip), so their thresholds and outputs are bit-exact copies",
         ],
         families: vec![
+            Family::new("builders", 300, 3000, builders_fam),
             Family::new("clf", 5000, 120000, clf),
             Family::new("reg", 4000, 100000, reg),
             Family::new("clf_grown", 1500, 30000, clf_grown),
